@@ -496,4 +496,5 @@ func runC01(c *kit.Ctx) {
 			}
 		}
 	}
+	c01RunTransports(c)
 }
